@@ -43,6 +43,15 @@ def gen(ctx):
         # the same inner text inside different delimiters (raw string, JSON literal, quoted identifier): anything keyed on the inner text only mixes them up
         inner = rng.choice(['{"kind":"' + "a" * 30 + '"}', '"' + "b" * 40 + '"', "[1,2,3,4,5,6,7,8,9,10,11,12,13,14,15,16]", '"short"', "12345678901234567890123456789012345"])
         pool += ["'" + inner + "'", "`" + inner + "`", "@ == `" + inner + "`", "@ == '" + inner + "'"]
+        # literal-only expressions (constant on every document EXCEPT that a multi-select on null is null), searched on null and non-null documents
+        pool += rng.sample(["[`1`, `2`]", "{k: 'v'}", "['a']", "`1`", "[`1`].length(@)", "{a: `1`, b: `[]`}", "[[`1`]]", "'raw'", "`null`", "[`null`]", "{n: `null`}"], 3)
+        if rng.random() < 0.6:
+            docs.append("n")
+        # the same failing expression with ONE whitespace character exchanged (space / newline / tab / carriage return): same length, same
+        # offsets, different line and column — compiled and searched back to back
+        for pfail in rng.sample(["ab.~", "abs('x')", "a[::0]", "sort_by(@, &a) | b.", "length(`1`)", "a.b.c.", "nope(@)"], 2):
+            k = rng.randrange(0, 2)
+            pool += [(" " * k) + w + pfail for w in ("\n", " ", "\t", "\r")]
         # expressions with two or more DIFFERENT failing parts: which error surfaces is fixed by the evaluation order, not by chance
         pool += rng.sample(["{a: abs('x'), b: length(`1`), c: nope(@)}", "{z: nope(@), a: abs('x')}", "[abs('x'), length(`1`)]", "{k1: [::0], k2: abs('x'), k3: nope2(@)}",
                             "not_null(abs('x'), length(`1`))", "{b: length(`1`), a: abs('x'), d: keys(`1`), c: values(`1`)}", "[*].{p: abs('x'), q: nope(@)}",
